@@ -49,6 +49,31 @@ CLAIMED = {
         text="Eq/Add/Norm/Enc are TLA+ definitions; TLC checks equivalence, commutativity, associativity, Dec(Enc(a)) = Norm(a) and injectivity of Enc on Norm-classes exhaustively over a small key/quantity domain and emits every pair (sampled triples); each case is replayed on the real type (Add, Compare, Asset, CBOR encode/decode, byte-exact against the spec's canonical encoding) at scales 1, 2^31, 2^62, 2^63, 2^64+1.",
         note="small key universe (2 policies x 2 names) and quantities -2..2 in TLC; addition-preserving scaling makes the spec result exact at large magnitudes; the int64/uint64 instantiations and the nil zero value are outside the property's domain (evidence only).",
         design_ref="§5 C06", engine="ledger-decision"),
+    "C09": dict(
+        technique="TLA+ model of the muxer's read/route/deliver/unregister steps and per-protocol senders (Muxer.tla, TLC safety+liveness over every inbound stream of <= 2-3 segments), observer specification MuxObs.tla validated by TLC on traces of real muxers (incl. an independent wire tap), TLC-enumerated adversarial inbound streams (MuxPlans.tla)",
+        text="Muxer.tla models Route and Deliver as separate steps (the code releases the map lock between them), so TLC explores the unregister race; invariants: routed only to the registered receiver of (protocol, direction), in order, nothing after an error, the read loop never ends silently, zero length is an error. Real muxers are traced: every Recv must be the next segment the peer wrote (id, direction, length, content hash), the tapped wire bytes must be the Send events each in one piece, payload 1..65535, deliveries as the specification predicts for every enumerated inbound stream and diffusion mode.",
+        note="fragmentation below the model's grain (exercised by the fragmenting conn); hashes are FNV-64; the race scenario is forced through the Route gate.",
+        design_ref="§5 C09, Appendix C", engine="muxer"),
+    "C16": dict(
+        technique="TLA+ reference automata of all mini-protocols (MiniProtocols.tla) and product construction with the implementation's state maps as TLC constants (ProtoEquiv.tla, TB); TLC-emitted label sequences with one-step deviations replayed through the real engine in both roles",
+        text="The product of each dumped implementation automaton (MatchFuncs evaluated on constructor-built messages) with the independent reference automaton is explored exhaustively: same agency and same enabled labels in every reachable product state, terminal iff terminal; all reference sequences up to a bound plus every one-step deviation are driven through protocol.New with the package's state map and codec by a raw peer sending real encodings.",
+        note="reference automata for the six Leios/DMQ protocols come from the package READMEs (limited independence).",
+        design_ref="§5 C16, Appendix D", engine="protocols"),
+    "C17": dict(
+        technique="TLA+ specification of which protocols a Connection constructs/registers/starts per configuration and of the muxer's direction gate (Connection.tla), TLC enumeration of all configurations x versions x inbound segments, replayed on real Connections against a raw handshake peer",
+        text="280 configurations (client/server, NtN/NtC/DMQ, duplex requested or not, peer's mode, version flags) x one request and one response segment per protocol id; observed: accessor nil-ness, handler invocation, connection error; oracle = the specification written from the network spec.",
+        note="Leios protocol ids treated as unspecified on NtN; ConnectionLegacy.cfg keeps the pre-fix design and must be rejected by TLC.",
+        design_ref="§5 C17", engine="connection"),
+    "C21": dict(
+        technique="TLA+ model of the chain-sync client (ChainSyncClient.tla: Sync, syncLoop, handlers, Stop over the engine's bounded send queue) sharing its observer (ChainSyncObs.tla) with the trace validator (ChainSyncTrace.tla); traces of the real client against the library's server validated by TLC",
+        text="Invariants Outstanding <= EffLimit, callback order = server order, one callback per RollForward/RollBackward with its tip, none for AwaitReply, Stop ends cleanly; TLC checks them on the model for limits 0..3 and histories <= 3 (thorough 6) and emits server histories; 141 (thorough 1366) real conversations with limits {0,1,2,50,100}, NtN and NtC, slow callbacks are traced and validated.",
+        note="known findings F-C21z, F-C21-stopfull, F-C21-orphan; the BlockPipeline path of handleRollForward is not exercised.",
+        design_ref="§5 C21", engine="chainsync"),
+    "C24": dict(
+        technique="TLA+ model of the tx-submission acknowledgement window (TxSubmission.tla), TLC invariants + emitted API histories and single wire requests, replayed on a real Server and Client over real muxers and by a raw peer",
+        text="acked <= received, 0 <= ack,req <= 65535, Done only as the answer to a blocking request, out-of-range requests refused locally; 6334 histories with the expected (blocking, ack, req) wire values (read from the engine's trace events) and call results, counts mapped order-isomorphically onto 0..65536 and beyond; Done is followed through the server's restart.",
+        note="state-map timeouts multiplied by 60 in the driver; a timeout that still fires is a machinery error.",
+        design_ref="§5 C24", engine="txsubmission"),
     "C10": dict(
         technique="TLA+ observer specification of the protocol engine (EngineObs.tla): traces recorded at the engine's linearization points on both endpoints validated line by line by TLC (EngineTrace.tla); TLC-generated conversation plans (EnginePlans.tla)",
         text="Both endpoints of real conversations (real Protocol instances, real muxers, fragmenting pipe) are traced with one recorder; TLC checks on every trace that the messages admitted by the receiver are exactly the messages dequeued by the sender (64-bit content hash, length, order), that segment lengths read equal segment lengths written, and the split/reassembly arithmetic (payload buffer, 65535 split, leftover data).",
